@@ -37,6 +37,12 @@ pub fn exec(op: &str, a: &[&str]) -> Option<String> {
             let h = BlockHeader { timestamp: ts, bits, ..Default::default() };
             Some(match h.validate(&hash, &prev) { Ok(()) => "ok".into(), Err(e) => err_class(&e) })
         }
+        // c19.hexenc <32 bytes>: Hash256::encode ; c19.hexdec <utf-8 bytes of the string>: Hash256::decode
+        "c19.hexenc" => Some(format!("ok:{}", h256(&unhexd(a[0])).encode())),
+        "c19.hexdec" => {
+            let Ok(s) = String::from_utf8(unhexd(a[0])) else { return Some("bad-request".into()) };
+            Some(match chain_gang::util::Hash256::decode(&s) { Ok(h) => format!("ok:{}", hexd(&h.0)), Err(e) => err_class(&e) })
+        }
         // c19.cmp <a hex> <b hex>
         "c19.cmp" => {
             let x = h256(&unhexd(a[0])); let y = h256(&unhexd(a[1]));
@@ -79,7 +85,32 @@ fn target_plus(bits: u32, delta: i32) -> Vec<u8> {
     v.truncate(32); v
 }
 
+/// the text form of hashes: random and boundary hashes; strings of every length 0..=70 and 126..=130, lower / upper / mixed
+/// case, one character replaced by a non-digit (ASCII, multi-byte UTF-8), whitespace around a valid string
+fn gen_text(thorough: bool, rng: &mut Rng, out: &mut Vec<String>) {
+    for k in 0..(if thorough { 2000 } else { 200 }) {
+        let h: Vec<u8> = match k { 0 => vec![0; 32], 1 => vec![0xff; 32], 2 => (0..32).collect(), _ => rng.bytes(32) };
+        out.push(format!("c19.hexenc {}", hexd(&h)));
+        let enc: String = h.iter().rev().map(|b| format!("{:02x}", b)).collect();
+        let up = enc.to_uppercase();
+        let mixed: String = enc.chars().enumerate().map(|(i, c)| if i % 3 == 0 { c.to_ascii_uppercase() } else { c }).collect();
+        for s in [enc.clone(), up, mixed] { out.push(format!("c19.hexdec {}", hexd(s.as_bytes()))); }
+        let pos = rng.below(64) as usize;
+        for bad in ["g", "G", " ", "\n", "x", "/", ":", "@", "`", "\u{e9}", "\u{20ac}", "\u{1f600}", "\u{ff10}"] {
+            let mut t: Vec<char> = enc.chars().collect(); let b: Vec<char> = bad.chars().collect(); t[pos] = b[0];
+            let t: String = t.into_iter().collect();
+            out.push(format!("c19.hexdec {}", hexd(t.as_bytes())));
+        }
+        for (pre, post) in [(" ", ""), ("", " "), ("", "\n"), ("0x", ""), ("", "00"), ("0", "")] { out.push(format!("c19.hexdec {}", hexd(format!("{}{}{}", pre, enc, post).as_bytes()))); }
+    }
+    for len in (0..=70usize).chain(126..=130) {
+        let s: String = (0..len).map(|_| *rng.pick(&['0', '1', '9', 'a', 'f', 'A', 'F', '7'])).collect();
+        out.push(format!("c19.hexdec {}", hexd(s.as_bytes())));
+    }
+}
+
 pub fn gen(tier: &str, rng: &mut Rng, out: &mut Vec<String>) {
+    gen_text(tier == "thorough", &mut rng.fork(), out);
     let thorough = tier == "thorough";
     // (a) every exponent 0..=255 x boundary mantissas x hash at target-1, target, target+1, random
     let mants: [u32; 8] = [0, 1, 0xff, 0x100, 0xffff, 0x10000, 0x7fffff, 0x123456];
